@@ -40,7 +40,7 @@ def prefs_view(name):
             'expiry': int(p['key_expiration'].total_seconds()) if 'key_expiration' in p else None}
 
 
-OPS = ['add_uid_B', 'add_uid_img', 'add_sub_sign', 'add_sub_enc', 'recert_A_P2', 'recert_A_P3_same_second', 'recert_B_P3', 'third_party_A', 'third_party_A_local',
+OPS = ['add_uid_B', 'add_uid_img', 'add_sub_sign', 'add_sub_enc', 'recert_A_P2', 'recert_A_P3_same_second', 'recert_A_P2_generic_same_second', 'recert_B_P3', 'third_party_A', 'third_party_A_local',
        'revoke_uid_A', 'revoke_sub0', 'revoke_key', 'add_revoker', 'del_uid_B', 'protect', 'derive_pub', 'copy', 'export_import_bin', 'export_import_asc',
        'direct_sig', 'direct_third_local']
 
@@ -67,7 +67,7 @@ class Model(object):
             return not any(s['kind'] == 'sign' for s in self.subs)
         if op == 'add_sub_enc':
             return not any(s['kind'] == 'enc' for s in self.subs)
-        if op in ('recert_A_P2', 'recert_A_P3_same_second', 'third_party_A', 'third_party_A_local'):
+        if op in ('recert_A_P2', 'recert_A_P3_same_second', 'recert_A_P2_generic_same_second', 'third_party_A', 'third_party_A_local'):
             return 'A' in u
         if op == 'recert_B_P3':
             return 'B' in u
@@ -158,10 +158,11 @@ class World(object):
                 key.add_subkey(sk, usage={KeyFlags.Sign} if op == 'add_sub_sign' else {KeyFlags.EncryptCommunications, KeyFlags.EncryptStorage}, created=t)
             self.sub_raws[name] = sraw
             m.subs.append({'kind': 'sign' if op == 'add_sub_sign' else 'enc', 'name': name, 'revoked': False})
-        elif op in ('recert_A_P2', 'recert_A_P3_same_second', 'recert_B_P3'):
+        elif op in ('recert_A_P2', 'recert_A_P3_same_second', 'recert_A_P2_generic_same_second', 'recert_B_P3'):
             who = 'B' if op == 'recert_B_P3' else 'A'
-            pn = 'P2' if op == 'recert_A_P2' else 'P3'
-            same = op == 'recert_A_P3_same_second'
+            pn = 'P2' if op in ('recert_A_P2', 'recert_A_P2_generic_same_second') else 'P3'
+            same = op.endswith('same_second')
+            level = SignatureType.Generic_Cert if 'generic' in op else SignatureType.Positive_Cert
             if same:
                 # same second as this identity's most recent self-certification
                 self.t = max(self.t, max(t for t, _ in m.uids[who]['certs']))
@@ -171,7 +172,7 @@ class World(object):
                 t = self.tick()
                 tt = self.t
             u = self._uid(who)
-            u |= key.certify(u, SignatureType.Positive_Cert, created=t, **prefs(pn))
+            u |= key.certify(u, level, created=t, **prefs(pn))
             m.uids[who]['certs'].append((tt, pn))
         elif op in ('third_party_A', 'third_party_A_local'):
             t = self.tick()
